@@ -208,9 +208,19 @@ class Check:
 
         def one(k):
             start, cs = chunks[k]
+            # the type of the inputs is taken from the model function, so that a chunk whose literals are all
+            # `[]` / `None` (no element to infer a type from) still type-checks; if the function's own type cannot
+            # be inferred without the cases, fall back to the untyped definition
+            typed = ("Definition f__ := (%s).\n"
+                     "Definition cases : list (ltac:(let t := type of f__ in let t' := eval cbv beta in t in "
+                     "match t' with ?A -> _ => exact A end) * list Z) := [\n" % fn_expr) + ";\n".join(cs) + "].\n"
+            typed += "Eval vm_compute in (mismatches f__ cases).\n"
             body = "Definition cases := [\n" + ";\n".join(cs) + "].\n"
             body += "Eval vm_compute in (mismatches (%s) cases).\n" % fn_expr
-            out = self.coq_eval("cases_%s_%d" % (stream, k), body, imports, timeout)
+            try:
+                out = self.coq_eval("cases_%s_%d" % (stream, k), typed, imports, timeout)
+            except RuntimeError:
+                out = self.coq_eval("cases_%s_%d" % (stream, k), body, imports, timeout)
             r = coq_nat_list(out)
             if r is None:
                 raise RuntimeError("unparsable coqc output: " + out[:300])
